@@ -29,7 +29,7 @@ ASSUMPTIONS = ["targets drawn from a continuous distribution (the property says 
 def cross_cases(draw, tier):
     dmax = 4 if tier == "quick" else 5
     T = draw(gen.tt_specs(d_max=dmax, n_max=5, r_max=3, size_max=1024 if tier == "quick" else 3125,
-                          families=("gauss", "float"), rank_families=("rank1", "uniform", "ragged")))
+                          families=("gauss", "float", "gauss", "float", "smallint"), rank_families=("rank1", "uniform", "ragged")))
     rho = max(T["r"])
     regime = draw(st.sampled_from(["fixed", "growth"]))
     case = {"T": T, "regime": regime, "y0seed": draw(st.integers(0, 10 ** 6)), "cache": draw(st.booleans()),
@@ -38,6 +38,10 @@ def cross_cases(draw, tier):
     if regime == "growth":
         case["dr_min"] = draw(st.integers(1, 2))
         case["dr_max"] = draw(st.integers(case["dr_min"], 2))
+    if T["fam"] == "smallint":
+        # an integer-valued table: the objective may hand its values back as float32 / integer arrays or as a list (all exact)
+        case["scale10"] = 0
+        case["out"] = draw(st.sampled_from(["float32", "float32", "int64", "int32", "list", "float16"]))
     return case
 
 
@@ -47,6 +51,42 @@ def run_cross(ctx, F, Y0, *, nswp, dr_min, dr_max, cache, I_vld=None, y_vld=None
     Y = ctx.lib(teneva.cross, f, Y0, nswp=nswp, dr_min=dr_min, dr_max=dr_max, info=info, cache=cache,
                 I_vld=I_vld, y_vld=y_vld, cb=cb, **kw)
     return Y, info, f
+
+
+def typed_objective(case, ctx, F, n, rho):
+    """Integer-valued targets are not generic (dependent fibres), so reproduction is not claimed for them; what is: the values of the
+    objective are numbers whatever array type carries them.  The run with values handed back as float32 / float16 / int64 / int32 arrays
+    or as a list must be bit-identical to the run with float64 arrays (cores, info, the index batches asked for) - with and without cache."""
+    out = case["out"]
+    if out == "float16" and np.abs(F).max() > 2048:
+        out = "float32"
+    ctx.label("objective_returns:" + out)
+    ctx.check(out == "list" or np.array_equal(F.astype(out).astype(float), F), "harness: target values not exact in the objective's dtype")
+    if case["regime"] == "fixed":
+        Y0 = ctx.lib(teneva.rand, n, case["T"]["r"], seed=case["y0seed"])
+        kw = dict(nswp=3 + case["extra"], dr_min=0, dr_max=0)
+    else:
+        Y0 = ctx.lib(teneva.rand, n, 1, seed=case["y0seed"])
+        kw = dict(nswp=rho + 1 + case["extra"], dr_min=case["dr_min"], dr_max=case["dr_max"])
+    rng = np.random.default_rng(case["vseed"])
+    I_vld = np.vstack([rng.integers(0, k, size=7) for k in n]).T if case["vld"] else None
+    res = {}
+    for name, o in (("float64", None), (out, out)):
+        f = Objective(F, out=o)
+        info = {}
+        y_vld = None if I_vld is None else (F[tuple(I_vld.T)] if o in (None, "list") else F[tuple(I_vld.T)].astype(o))
+        Y = ctx.lib(teneva.cross, f, Y0, info=info, cache={} if case["cache"] else None, I_vld=I_vld, y_vld=y_vld, **kw)
+        why = oracle.wellformed(Y, n, finite=False)
+        ctx.check(why is None, f"cross (objective returns {name}): malformed result: {why}")
+        res[name] = (Y, {k: v for k, v in info.items() if k != "t"}, f.batches)
+    (Ya, ia, ba), (Yb, ib, bb) = res["float64"], res[out]
+    ctx.check(len(ba) == len(bb) and all(np.array_equal(x, y) for x, y in zip(ba, bb)), "cross asks for other indices when the objective returns its (same) values "
+              f"as {out} instead of float64 arrays", calls_float64=len(ba), calls_typed=len(bb))
+    ctx.check(all(np.array_equal(x, y, equal_nan=True) and x.dtype == y.dtype for x, y in zip(Ya, Yb)) and len(Ya) == len(Yb),
+              f"cross: the result depends on the array type ({out}) in which the objective returns exactly representable values",
+              diff=max((float(np.max(np.abs(x - y))) for x, y in zip(Ya, Yb) if x.shape == y.shape), default=None), ranks=[oracle.ranks_of(Ya), oracle.ranks_of(Yb)])
+    ctx.check(repr(sorted(ia.items())) == repr(sorted(ib.items())), f"cross: info differs when the objective returns {out}", float64=ia, typed=ib)
+    ctx.inner(2)
 
 
 def prop_cross(case, ctx):
@@ -61,6 +101,8 @@ def prop_cross(case, ctx):
     rho = max(Tspec["r"])
     ctx.label(*gen.spec_labels(Tspec), "regime:" + case["regime"], "cache" if case["cache"] else "nocache", "vld" if case["vld"] else "novld")
     ctx.nontrivial(rho >= 2 or case["regime"] == "growth")
+    if case.get("out"):
+        return typed_objective(case, ctx, F, n, rho)
     if case["regime"] == "fixed":
         Y0 = ctx.lib(teneva.rand, n, Tspec["r"], seed=case["y0seed"])
         dr_min = dr_max = 0
